@@ -90,4 +90,210 @@ theorem out_eval (gk : GK) (hgk : gk = .and ∨ gk = .or) (v : Node → Bool) (e
       rw [List.map_map]
       exact List.map_congr_left (fun c hc => ih c (by simp [hc]) (h.2.2 c (by simp [hc])).2)
 
+/-! ## The query objects built by the group nodes select what the tree reads -/
+
+theorem full_group {k : GK} {ns : List Node} {b : Rat} :
+    Node.full (.group k ns b) = ((match k with
+     | .not => decide (ns.length = 1)
+     | .andnot | .andmaybe | .require => decide (ns.length = 2)
+     | _ => !ns.isEmpty) && (ns.map Node.full).all id) := by
+  cases k <;> rw [Node.full] <;> intro h <;> cases h
+
+theorem full_mem {k : GK} {ns : List Node} {b : Rat} (h : Node.full (.group k ns b) = true) :
+    ∀ x ∈ ns, x.full = true := by
+  rw [full_group] at h
+  simp only [Bool.and_eq_true, List.all_eq_true, List.mem_map, id] at h
+  exact fun x hx => h.2 _ ⟨x, hx, rfl⟩
+
+/-- what `query` returns for a tree all of whose leaves yield a (truthy) query -/
+def Good (o : Node → LeafRes) (v : Node → Bool) (w : Nat → Bool) (t : Node) : Prop :=
+  ∃ q, query o t = .ok (some q) ∧ q.truthy = true ∧ Q.eval w q = Node.eval v t
+
+theorem mapM_good {o : Node → LeafRes} {v : Node → Bool} {w : Nat → Bool} {l : List Node}
+    (h : ∀ x ∈ l, Good o v w x) :
+    ∃ qs : List Q, l.mapM (query o) = .ok (qs.map some) ∧ qs.length = l.length ∧
+      qs.map (Q.eval w) = l.map (Node.eval v) := by
+  induction l with
+  | nil => exact ⟨[], rfl, rfl, rfl⟩
+  | cons a t ih =>
+    obtain ⟨q, hq, _, he⟩ := h a (by simp)
+    obtain ⟨qs, hqs, hl, hes⟩ := ih (fun x hx => h x (by simp [hx]))
+    exact ⟨q :: qs, by simp [List.mapM_cons, hq, hqs, bind, Except.bind, pure, Except.pure],
+      by simp [hl], by simp [he, hes]⟩
+
+theorem filterMap_map_some {α} (l : List α) : (l.map some).filterMap id = l := by
+  induction l with
+  | nil => rfl
+  | cons a t ih => simp [ih]
+
+/-- `C16.precedence`, query stage: on a tree whose groups have the operands their class needs and
+    whose leaves all yield a query, the `query()` methods of the group nodes return a (truthy)
+    query object that selects exactly the documents the tree's reading selects. -/
+theorem query_meaning (o : Node → LeafRes) (v : Node → Bool) (w : Nat → Bool)
+    (ho : ∀ n, n.isLeaf = true → ∃ id, o n = .q id true ∧ w id = v n) (t : Node) :
+    t.full = true → Good o v w t := by
+  induction hsz : t.size using Nat.strongRecOn generalizing t with
+  | _ sz ih =>
+    intro hf
+    have leaf : ∀ n, n.isLeaf = true → (query o n = match o n with
+        | .none => .ok none | .q id tr => .ok (some (.leaf id tr)) | .err e => .error e) → Good o v w n := by
+      intro n hl hn
+      obtain ⟨id, hid, hw⟩ := ho n hl
+      refine ⟨.leaf id true, ?_, rfl, ?_⟩
+      · rw [hn, hid]
+      · rw [eval_leaf v hl]; simpa [Q.eval] using hw
+    cases t with
+    | text k t f b => exact leaf _ rfl (by rw [query]; cases o (.text k t f b) <;> rfl)
+    | range s e sx ex f => exact leaf _ rfl (by rw [query]; cases o (.range s e sx ex f) <;> rfl)
+    | every => exact leaf _ rfl (by rw [query]; cases o .every <;> rfl)
+    | group k ns b =>
+      have hch : ∀ x ∈ ns, Good o v w x := by
+        intro x hx
+        have := size_mem hx
+        exact ih x.size (by subst hsz; simp only [Node.size]; omega) x rfl (full_mem hf x hx)
+      have hshape := hf
+      rw [full_group] at hshape
+      simp only [Bool.and_eq_true] at hshape
+      have comp : (query o (.group k ns b) = (ns.mapM (query o)).bind fun qs => pure (some (.compound k (qs.filterMap id) b)))
+          → ns ≠ [] → ∃ qs : List Q, query o (.group k ns b) = .ok (some (.compound k qs b)) ∧ qs ≠ [] ∧
+              qs.map (Q.eval w) = ns.map (Node.eval v) := by
+        intro he hne
+        obtain ⟨qs, hqs, hl, hes⟩ := mapM_good hch
+        refine ⟨qs, ?_, ?_, hes⟩
+        · rw [he, hqs]; simp [Except.bind, pure, Except.pure]
+        · intro h0; subst h0; simp at hl; exact hne (List.eq_nil_of_length_eq_zero hl.symm)
+      cases k with
+      | not =>
+        match ns, hshape.1, hch with
+        | [n0], _, hch =>
+          obtain ⟨q, hq, ht, he⟩ := hch n0 (by simp)
+          refine ⟨.not q, ?_, rfl, ?_⟩
+          · rw [query]; simp [hq, ht, bind, Except.bind, pure, Except.pure]
+          · rw [eval_group_not]; simp [Q.eval, he]
+      | andnot =>
+        match ns, hshape.1, hch with
+        | [a, c], _, hch =>
+          obtain ⟨q1, hq1, _, he1⟩ := hch a (by simp)
+          obtain ⟨q2, hq2, _, he2⟩ := hch c (by simp)
+          refine ⟨.binary .andnot q1 q2, ?_, rfl, ?_⟩
+          · rw [query]; simp [hq1, hq2, bind, Except.bind, pure, Except.pure]
+          · rw [eval_group_andnot]; simp [Q.eval, he1, he2]
+      | andmaybe =>
+        match ns, hshape.1, hch with
+        | [a, c], _, hch =>
+          obtain ⟨q1, hq1, _, he1⟩ := hch a (by simp)
+          obtain ⟨q2, hq2, _, he2⟩ := hch c (by simp)
+          refine ⟨.binary .andmaybe q1 q2, ?_, rfl, ?_⟩
+          · rw [query]; simp [hq1, hq2, bind, Except.bind, pure, Except.pure]
+          · rw [eval_group_andmaybe]; simp [Q.eval, he1]
+      | require =>
+        match ns, hshape.1, hch with
+        | [a, c], _, hch =>
+          obtain ⟨q1, hq1, _, he1⟩ := hch a (by simp)
+          obtain ⟨q2, hq2, _, he2⟩ := hch c (by simp)
+          refine ⟨.binary .require q1 q2, ?_, rfl, ?_⟩
+          · rw [query]; simp [hq1, hq2, bind, Except.bind, pure, Except.pure]
+          · rw [eval_group_require]; simp [Q.eval, he1, he2]
+      | and =>
+        have hne : ns ≠ [] := by simpa using hshape.1
+        obtain ⟨qs, hq, hqne, hes⟩ := comp (by rw [query] <;> first | rfl | (intro h; cases h)) hne
+        refine ⟨_, hq, by simpa [Q.truthy] using hqne, ?_⟩
+        rw [eval_group_and, ← hes]; simp [Q.eval, hqne]
+      | or =>
+        have hne : ns ≠ [] := by simpa using hshape.1
+        obtain ⟨qs, hq, hqne, hes⟩ := comp (by rw [query] <;> first | rfl | (intro h; cases h)) hne
+        refine ⟨_, hq, by simpa [Q.truthy] using hqne, ?_⟩
+        rw [eval_group_or, ← hes]; simp [Q.eval]
+      | dismax =>
+        have hne : ns ≠ [] := by simpa using hshape.1
+        obtain ⟨qs, hq, hqne, hes⟩ := comp (by rw [query] <;> first | rfl | (intro h; cases h)) hne
+        refine ⟨_, hq, by simpa [Q.truthy] using hqne, ?_⟩
+        rw [Node.eval, ← hes]; simp [Q.eval]
+      | ordered =>
+        have hne : ns ≠ [] := by simpa using hshape.1
+        obtain ⟨qs, hq, hqne, hes⟩ := comp (by rw [query] <;> first | rfl | (intro h; cases h)) hne
+        refine ⟨_, hq, by simpa [Q.truthy] using hqne, ?_⟩
+        rw [Node.eval, ← hes]; simp [Q.eval, hqne]
+      | seq =>
+        have hne : ns ≠ [] := by simpa using hshape.1
+        obtain ⟨qs, hq, hqne, hes⟩ := comp (by rw [query] <;> first | rfl | (intro h; cases h)) hne
+        refine ⟨_, hq, by simpa [Q.truthy] using hqne, ?_⟩
+        rw [Node.eval, ← hes]; simp [Q.eval, hqne]
+    | _ => rw [Node.full] at hf <;> first | cases hf | (intros; simp_all)
+
+theorem full_leaf {n : Node} (h : n.isLeaf = true) : n.full = true := by
+  cases n <;> simp [Node.isLeaf] at h <;> rw [Node.full] <;> intros <;> simp_all
+
+theorem full_of_all {k : GK} {ns : List Node} {b : Rat} (hk : (match k with
+     | .not => decide (ns.length = 1)
+     | .andnot | .andmaybe | .require => decide (ns.length = 2)
+     | _ => !ns.isEmpty) = true) (h : ∀ x ∈ ns, x.full = true) : Node.full (.group k ns b) = true := by
+  rw [full_group, hk]
+  simp only [Bool.true_and, List.all_eq_true, List.mem_map, id]
+  rintro _ ⟨x, hx, rfl⟩
+  exact h x hx
+
+theorem full_combineL {g : GK} (hg : 2 ≤ g.lvl) {a m : Node} (ha : a.full = true) (hm : m.full = true) :
+    (combineL g a m).full = true := by
+  unfold combineL
+  split
+  · next ns b h =>
+    split at h
+    · next hmg =>
+      have hs := groupOf?_some h
+      subst hs
+      have hne : ns ≠ [] := by
+        have := ha
+        rw [full_group] at this
+        simp only [Bool.and_eq_true] at this
+        cases g <;> simp [GK.merging] at hmg <;> simpa using this.1
+      apply full_of_all
+      · cases g <;> simp [GK.merging] at hmg <;> simp
+      · intro x hx
+        rcases List.mem_append.1 hx with h1 | h1
+        · exact full_mem ha x h1
+        · simp at h1; subst h1; exact hm
+    · cases h
+  · apply full_of_all
+    · cases g <;> simp [GK.lvl] at hg <;> simp
+    · intro x hx; simp at hx; rcases hx with rfl | rfl <;> assumption
+
+theorem full_foldl_combineL {g : GK} (hg : 2 ≤ g.lvl) (a : Node) (ms : List Node)
+    (ha : a.full = true) (hm : ∀ m ∈ ms, m.full = true) : (ms.foldl (combineL g) a).full = true := by
+  induction ms generalizing a with
+  | nil => exact ha
+  | cons m ms ih =>
+    simp only [List.foldl_cons]
+    exact ih _ (full_combineL hg ha (hm m (by simp))) (fun x hx => hm x (by simp [hx]))
+
+/-- the tree of a well-formed expression has all the operands its groups need -/
+theorem out_full (gk : GK) (hgk : gk = .and ∨ gk = .or) (e : Expr) : e.wf = true → (e.out gk).full = true := by
+  induction e using Expr.ind with
+  | atom n => intro h; rw [out_atom]; rw [wf_atom] at h; exact full_leaf h
+  | paren items ih =>
+    intro h
+    rw [wf_paren] at h
+    rw [out_paren]
+    apply full_of_all
+    · rcases hgk with h1 | h1 <;> subst h1 <;> simpa using h.1
+    · intro x hx
+      obtain ⟨e, he, rfl⟩ := List.mem_map.1 hx
+      exact ih e he (h.2 e he)
+  | not e0 ih =>
+    intro h
+    rw [wf_not] at h
+    rw [out_not]
+    exact full_of_all (by simp) (by intro x hx; simp at hx; subst hx; exact ih h.2)
+  | op g es ih =>
+    intro h
+    rw [wf_op] at h
+    cases es with
+    | nil => simp at h
+    | cons e1 es =>
+      rw [out_op_cons]
+      apply full_foldl_combineL h.1 _ _ (ih e1 (by simp) (h.2.2 e1 (by simp)).2)
+      intro m hm
+      obtain ⟨e, he, rfl⟩ := List.mem_map.1 hm
+      exact ih e (by simp [he]) (h.2.2 e (by simp [he])).2
+
 end WM.Parser
